@@ -8,8 +8,9 @@ use serde_json::{json, Map, Value};
 
 pub struct C14;
 
-fn lattice(tier: Tier) -> Vec<Cfg> {
-    let q = tier == Tier::Quick;
+fn lattice(_tier: Tier) -> Vec<Cfg> {
+    // both tiers use the full configuration lattice (seconds); thorough adds event positions and f32
+    let q = false;
     let mut v = Vec::new();
     let ratios: Vec<f64> = if q { vec![0.25, 147.0 / 160.0, 2.5] } else { vec![1.0 / 16.0, 0.25, 0.7, 147.0 / 160.0, 1.0, 160.0 / 147.0, 2.5, 8.0, 16.0] };
     let chunks: Vec<usize> = if q { vec![64] } else { vec![64, 1000] };
@@ -176,6 +177,9 @@ impl Check for C14 {
         if cfg.chunk > 1 {
             let b = ((base / cfg.chunk) + 2) * cfg.chunk;
             positions.extend([b - 1, b, b + 1]);
+        }
+        if tier == Tier::Thorough {
+            positions.extend([base + 2, base + 3, base + 5, base + 11, base + 137 * scale, base + 1501 * scale]);
         }
         for n0 in positions {
             one::<f64>(&mut acc, &cfg, n0, journal)?;
